@@ -202,6 +202,22 @@ Definition graph_to_logic (nd : var) (ignore_initial receptive
   {| env_init := add_expr ei; env_action := add_expr et;
      sys_init := add_expr si; sys_action := add_expr st |}.
 
+(* `_nodevar_dom(g)`: (min(g), max(g)); the code asserts len(g) > 0 *)
+Definition nodevar_dom (g : tsys) : Z * Z :=
+  match map fst (ts_nodes g) with
+  | [] => (0%Z, 0%Z)
+  | u :: r => (fold_left Z.min r u, fold_left Z.max r u)
+  end.
+
+(* the variable lists of `graph_to_logic`:
+     aut.varlist['env'] = list(g.env_vars)
+     aut.varlist['sys'] = [k for k in g.vars if k not in g.env_vars]
+     aut.varlist[g.owner].append(nodevar) *)
+Definition varlists (nd : var) (g : tsys) : list var * list var :=
+  let env := ts_env_vars g in
+  let sys := filter (fun k => negb (mem k (ts_env_vars g))) (ts_vars g) in
+  if ts_owner_sys g then (env, sys ++ [nd]) else (env ++ [nd], sys).
+
 Definition owner_init (a : automaton) (g : tsys) : form :=
   if ts_owner_sys g then sys_init a else env_init a.
 Definition owner_action (a : automaton) (g : tsys) : form :=
@@ -245,6 +261,8 @@ Arguments env_init {EL NL}.
 Arguments env_action {EL NL}.
 Arguments sys_init {EL NL}.
 Arguments sys_action {EL NL}.
+Arguments nodevar_dom {EL NL}.
+Arguments varlists {EL NL}.
 Arguments owner_init {EL NL}.
 Arguments owner_action {EL NL}.
 Arguments other_init {EL NL}.
